@@ -246,7 +246,18 @@ func wRoundTrip(c *Ctx, sp wRTSpec, why string) {
 		}
 		return append(out, e)
 	}
+	// how often the stand-ins were actually used: a message codec that produces
+	// or consumes its names some other way (a shared append-style helper, an
+	// inlined loop) is not covered by the stand-in, and a failure of the real
+	// name code to understand the stand-in's bytes says nothing about the codec
+	nEncCalls, nDecCalls := 0, 0
 	in.Hook = func(in *absint.Interp, call *ssa.CallCommon, callee *ssa.Function, args []absint.Value) (absint.Value, bool) {
+		switch callee {
+		case nEnc:
+			nEncCalls++
+		case nDec:
+			nDecCalls++
+		}
 		switch callee {
 		case nEnc:
 			if len(args) < 1 {
@@ -500,6 +511,10 @@ func wRoundTrip(c *Ctx, sp wRTSpec, why string) {
 	tup, _ := res.(absint.Tuple)
 	if len(tup) < 2 {
 		nd("%s does not return (…, error)", sp.decName)
+		return
+	}
+	if isNil, known := c13IfaceNil(tup[len(tup)-1]); (!known || !isNil) && (nEncCalls == 0) != (nDecCalls == 0) {
+		nd("%s returns an error, but only one side goes through the name codec's entry points (%s called %d times, %s %d times): the names on the wire were not produced / consumed by the stand-in, so the error says nothing about the message codec", sp.decName, sp.nameEnc[1], nEncCalls, sp.nameDec[1], nDecCalls)
 		return
 	}
 	if isNil, known := c13IfaceNil(tup[len(tup)-1]); !known || !isNil {
